@@ -367,3 +367,12 @@ Definition decodes (alloc : N) (e : list N) (m : mset) : Prop :=
   (m_type m = MatchType_IpVersion -> ms_ip_version e mod 256 = m_mask m) /\
   (m_type m = MatchType_ProcessName -> le64 e 0 = le64 (m_pname m) 0 /\ le64 e 8 = le64 (m_pname m) 8) /\
   (m_type m = MatchType_Dscp -> ms_dscp e = m_dscp m).
+
+(* the process-name hypothesis of C02_kscan_scan_partial: the kernel's guard (is_wan) and the userspace guard (first byte of
+   the name non-zero) coincide for this probe, or no process-name match-set carries exactly the probe's sixteen bytes *)
+Definition pname_guard_ok (ms : list mset) (pk : packet) (wan : bool) : bool :=
+  Bool.eqb wan (negb (nth 0 (p_pname pk) 0 =? 0)) ||
+  forallb (fun m => negb (m_type m =? MatchType_ProcessName) || negb (list_eqb (nth16 (m_pname m)) (p_pname pk))) ms.
+
+(* a bitmap as the domain matcher returns it: MaxMatchSetLen/32 words of 32 bits *)
+Definition bitmap_ok (w : list N) : bool := Nat.eqb (List.length w) 32 && forallb (fun x => x <? 2 ^ 32) w.
